@@ -87,8 +87,18 @@ def _expr(e, flags, ids, out) -> None:
         raise TypeError(f"not an expression: {e!r}")
 
 
+def coords(p) -> dict:
+    """the coordinates of a Point as a dict in the order they were written: from the private mapping if it
+    is there, otherwise read back from the printed form (a refactoring may store them differently)"""
+    d = getattr(p, "_coordinates", None)
+    if isinstance(d, dict):
+        return d
+    text = repr(p)
+    return eval("dict(" + text[len("Point("):], {"__builtins__": {}, "dict": dict, "inf": float("inf"), "nan": float("nan")})
+
+
 def point(p: Point | dict) -> str:
-    d = p._coordinates if isinstance(p, Point) else p
+    d = coords(p) if isinstance(p, Point) else p
     return " ".join([str(len(d))] + [f"{k} {num(v)}" for k, v in d.items()])
 
 
